@@ -375,6 +375,14 @@ def _evaluate(wl, cfg, dec, ctx, after_decoy=False):
     if wl.get("recovery") and not fail and out.status == "ok":
         res = out.result
         out.probes["recovery_checked"] = 1
+        if wl.get("container"):
+            # its own clause: the listed rare stall of plain two-arc circuits (KNOWN_FINDINGS.jsonl, clause "recovery")
+            # says nothing about container circuits, where 42 of 42 calibration workloads recover
+            out.probes["recovery_checked_container"] = 1
+            _add = add
+
+            def add(clause, detail, expected=None):  # noqa: F811
+                _add("recovery-container" if clause == "recovery" else clause, detail, expected)
         import pyimpspec
 
         truth = pyimpspec.parse_cdc(wl["data"]["cdc"])
